@@ -1,9 +1,18 @@
 """C06 - formatting yields a valid empty volume for every accepted request.
 
-proof            Props/C06.v (totality, error kind, validity of every accepted geometry, default options succeed for
-                 42 <= ts < 2^32) over Model/Format.v
+proof            Props/C06.v part 1 (totality, error kind, validity of every accepted geometry, default options succeed for
+                 42 <= ts < 2^32) over Model/Format.v; part 2 (C06_image_*: boot-sector copies, FAT copies, root directory,
+                 free space / FS-info, frame, no panic, decode through Spec/Abs.v + Spec/Wf.v) over Model/FormatImage.v for
+                 every request, every 32-bit sector count and every initial device content
 correspondence   identical request lines to `fatfs-exec fmtbs` (real library, boot-sector hook) and to the extracted
-                 model (`model c06`): outputs must be equal byte for byte
+                 model (`model c06`): outputs must be equal byte for byte;
+                 format_image: a few hundred sampled requests per run (all FAT widths, sector sizes 512..4096, 1-2 FATs,
+                 root entries, labels incl. 0x00/0xE5/0x05 lead bytes, media, volume ids, explicit and device-derived
+                 sector counts, blank and stale devices): the real format_volume runs on a sparse device and EVERY byte of
+                 the device afterwards (`pages`) is compared with the image the extracted model computes from the same
+                 initial content (`model c06i`) - written regions and untouched remainder alike;
+                 the FAT32 BAD-range branch of format_fat (tables reaching entry 0x0FFFFFF0; not computable by the
+                 extracted model) is compared on a sparse 128 GiB device with the statement of C06_image_fat
 direct checks    on the implementation's own output, independent of the model: no panic, only InvalidInput, every
                  accepted boot sector satisfies the extracted Spec/FormatSpec.v clauses (`model c06v`), default
                  options accepted iff ts >= 42; real format_volume on RAM images: boot sector = hook bytes, mounts
